@@ -36,3 +36,61 @@ def get_valid_from(cx):
         att = z3.Or(r.t == 1, z3.Exists([j], z3.And(0 <= j, j < n, dep(j), r.t == VF(monos.t[j]) + z3.If(selfdep, 0, 1))))
         return z3.And(r.t >= 1, geq, att)
     cx.ensures(post)
+
+
+ITER = z3.Function('iterate', I, I, R)          # ITER(k, i) = (A^k v)_i : the exact k-th iterate of the recurrence system (spec)
+
+
+def vector_model(cx):
+    """vectors A^k v are represented by their iterate count k; matrix * vector advances the count; vector[i] is ITER(k, i)"""
+    cx.set_hook('binop', lambda ex, st, op, a, b: VI(toint(b) + 1) if (op == 'Mult' and a.kind == 'fn2') else None)
+    cx.set_hook('index_hook', lambda ex, st, o, i: VR(ITER(o.t, toint(i))) if (o.kind == 'int' and i.kind == 'int') else None)
+
+
+@contract('recurrences/solver/cyclic_solver.py', 'CyclicSolver._add_beginning_values', ['C04', 'C01'])
+def add_beginning_values(cx):
+    """Piecewise( ((A^i v)_idx, n <= i) for i = 0..degree-1 ; (general solution, True) ): the listed special cases are the exact iterates"""
+    sol = cx.real('solution'); idx = cx.int('monom_index'); deg = cx.int('degree'); n = cx.real('n')
+    rec = cx.obj('Recurrences', init_values_vector=VI(0), recurrence_matrix=V('fn2', MAT, wrap=lambda t: VN(t)))
+    cx.param(self=cx.obj('CyclicSolver', recurrences=rec, characteristic_poly=cx.ref('charpoly'), n=n), solution=sol, monom_index=idx)
+    vector_model(cx)
+    cx.call('degree', lambda ex, st, r, a, kw: deg)
+    cx.call('Piecewise', lambda ex, st, r, a, kw: a[0])
+    cx.requires(deg.t >= 1)
+    cx.set_hook('empty_kinds', {'pieces': DSeq(DTuple(DR, DB))})
+    _, mk, (pv, pc) = tuple_sort([DR, DB])
+    j = z3.Int('j')
+    cx.invariant(0, lambda st: z3.And(z3.Length(st['beginning_values'].t) == st['$i0'].t + 1,
+                                      z3.ForAll([j], z3.Implies(z3.And(0 <= j, j <= st['$i0'].t), st['beginning_values'].t[j] == j))))
+    cx.invariant(1, lambda st: z3.And(z3.Length(st['pieces'].t) == st['$i1'].t,
+                                      z3.ForAll([j], z3.Implies(z3.And(0 <= j, j < st['$i1'].t), z3.And(pv(st['pieces'].t[j]) == ITER(j, idx.t), pc(st['pieces'].t[j]) == (n.t <= z3.ToReal(j)))))))
+
+    def post(st, r):
+        return z3.And(z3.Length(r.t) == deg.t + 1, pv(r.t[deg.t]) == sol.t, pc(r.t[deg.t]),
+                      z3.ForAll([j], z3.Implies(z3.And(0 <= j, j < deg.t), z3.And(pv(r.t[j]) == ITER(j, idx.t), pc(r.t[j]) == (n.t <= z3.ToReal(j))))))
+    cx.ensures(post)
+
+
+@contract(F, 'AcyclicSolver.get', ['C04', 'C01'])
+def acyclic_get(cx):
+    """Piecewise( ((A^i v)_idx, n <= i) for i < valid_from(monomial) ; (summed solution, True) )"""
+    mono = cx.ref('monomial'); n = cx.real('n'); vf = cx.int('valid_from'); sol = cx.real('solution_without_zero')
+    rec = cx.obj('Recurrences', init_values_vector=VI(0), recurrence_matrix=V('fn2', MAT, wrap=lambda t: VN(t)))
+    m2i = V('map', (z3.Lambda([z3.Const('v', REF)], IDX(z3.Const('v', REF))), z3.K(REF, z3.BoolVal(True))), kk=DRef(), vk=DI)
+    cx.param(self=cx.obj('AcyclicSolver', recurrences=rec, monom_to_index=m2i, n=n), monomial=mono)
+    vector_model(cx)
+    cx.call('sympify', lambda ex, st, r, a, kw: a[0])
+    cx.call('_get_without_zero', lambda ex, st, r, a, kw: sol, trusted='_get_without_zero: summed solution, valid from valid_from on (bounded C04 certificate)')
+    cx.call('_get_valid_from', lambda ex, st, r, a, kw: vf, trusted='_get_valid_from contract (above)')
+    cx.call('Piecewise', lambda ex, st, r, a, kw: a[0])
+    cx.requires(vf.t >= 1)
+    cx.set_hook('empty_kinds', {'pieces': DSeq(DTuple(DR, DB))})
+    _, mk, (pv, pc) = tuple_sort([DR, DB])
+    j = z3.Int('j'); idx = IDX(mono.t)
+    cx.invariant(0, lambda st: z3.And(z3.Length(st['pieces'].t) == st['$i0'].t, toint(st['value']) == st['$i0'].t,
+                                      z3.ForAll([j], z3.Implies(z3.And(0 <= j, j < st['$i0'].t), z3.And(pv(st['pieces'].t[j]) == ITER(j, idx), pc(st['pieces'].t[j]) == (n.t <= z3.ToReal(j)))))))
+
+    def post(st, r):
+        return z3.And(z3.Length(r.t) == vf.t + 1, pv(r.t[vf.t]) == sol.t, pc(r.t[vf.t]),
+                      z3.ForAll([j], z3.Implies(z3.And(0 <= j, j < vf.t), z3.And(pv(r.t[j]) == ITER(j, idx), pc(r.t[j]) == (n.t <= z3.ToReal(j))))))
+    cx.ensures(post)
